@@ -154,6 +154,13 @@ def scenarios_for(pid, tier, rng, comps):
                       optgen=lambda r: {"deliverOnRel": r.random() < 0.5})
         sc += deep_switch("c12d", [PUB(1), PUB(2)], [PUB(1), PUB(2)])
         sc += handshake_submits("c12h", [PUB(1), PUB(2)], [PUB(0), PUB(2)])
+        # the application re-uses one Message value: a retransmission must not leave DUP set for the next first transmission
+        i = 0
+        for a in (PUB(1), PUB(2)):
+            for b in (PUB(0), PUB(1), PUB(2)):
+                for f in ([{"k": 2, "o": "cutAfter"}], [{"k": 2, "o": "cutBefore"}], [{"k": 2, "o": "cutAfter"}, {"k": 4, "o": "cutAfter"}], [{"p": "PUBREL", "n": 1, "o": "cutAfter"}]):
+                    sc.append(rf.scenario("c12u-%d" % i, [a, b, b], ["conn", "idle", "idle"], f, opts={"reuseMessage": True}))
+                    i += 1
     elif pid == "C18":
         drops = comps["f_drops"]
         base = [[PUB(1)], [PUB(2)], [SUB(("x", 1))], [UNSUB("x")], [PUB(1), PUB(2)], [SUB(("x", 1)), PUB(1)], [PUB(2), UNSUB("y")]]
@@ -266,14 +273,16 @@ def model_instances(pid, tier):
         if not q:
             inst += [([PUB(2), SUB(("x", 1))], dict(faults=2, resp_timeout=True)), ([PUB(1), UNSUB("x")], dict(faults=3, resp_timeout=True))]
     elif pid == "C17":
-        inst = [([PUB(1)], dict(faults=2))]
+        inst = [([PUB(1)], dict(faults=2, handlers=(1, 2), inbound=2))]
+        if not q:
+            inst += [([PUB(1)], dict(faults=3, handlers=(1, 2), inbound=2)), ([PUB(0), SUB(("x", 1))], dict(faults=2, handlers=(1, 2, 3), inbound=3, sessions=(True, False)))]
     return inst
 
 
 MODEL_INVS = {
     "C01": ["NoLoss", "StableDone"], "C02": ["NoDupQoS2", "DeliveredOnce", "NoTxAfterDone", "StableDone"],
     "C03": ["OrderPerConn", "FirstTxOrder"], "C08": ["StableSubs", "NoLoss"],
-    "C12": ["DupFlag", "NoPubAfterRel", "NoQoS0Retx"], "C18": ["WaitArmed", "StableDone", "NoLoss"], "C17": ["NoLoss"],
+    "C12": ["DupFlag", "NoPubAfterRel", "NoQoS0Retx"], "C18": ["WaitArmed", "StableDone", "NoLoss"], "C17": ["HandlerFollows", "NoLoss"],
 }
 MODEL_LIVENESS = {"C01": ["EventuallyStable"], "C18": ["EventuallyStable"]}
 
